@@ -12,14 +12,10 @@ def main(tier: str) -> int:
     res = campaign.run_slices(slices, inv=("Good",), timeout=1500 if tier == "thorough" else 400)
     states, trans, cov = slices_summary(run, res, "C03")
     cases, stats = campaign.writer_campaign(tier, seed + 303, parse_entries=(), n_beh=60 if tier == "quick" else 500)
-    extra = {}
-    try:
-        from . import c02, c14  # noqa: PLC0415
-
-        more, extra = campaign.extra_streams_for_c03(tier, seed)
-        cases.extend(more)
-    except (ImportError, AttributeError):
-        pass
+    # every stream the repository's own tests make pyjelly write (recorded from outside, validity judged by TLC)
+    more, info = campaign.repo_test_traffic(tier, max_rows=(60_000 if tier == "quick" else 600_000))
+    cases.extend(more)
+    extra = {"repository_test_traffic": info}
     judged = 0
     samples = []
     clauses: dict = {}
@@ -36,7 +32,7 @@ def main(tier: str) -> int:
         if v != "ok":
             run.violation({"clause": v, **case.key},
                           f"independent decoder rejects or disagrees: {v} at row {case.verdict['at']}", case.replay)
-        if len(samples) < 3:
+        if len(samples) < 3 or (len(samples) < 5 and case.key.get("source") == "repository-test-suite"):
             samples.append({"key": case.key, "verdict": case.verdict, "rows": sum(len(f["rows"]) for f in case.frames)})
     return run.finish({
         "states": states + stats["judge"].get("states", 0), "transitions": trans + stats["judge"].get("transitions", 0),
